@@ -414,6 +414,11 @@ pub fn generate(prop: &str, rng: &mut Rng, plan: &mut Plan, index: u64) {
         plan.parent.closed_std = mask;
         plan.parent.files_low = rng.chance(1, 2);
     }
+    // a signal handler of the application runs while the parent is blocked: EINTR
+    if plan.knobs.batch == "faulty" && !c.thread_variant && rng.chance(1, 3) {
+        let mask = *rng.pick(&[1u8, 1, 3, 7]);
+        plan.knobs.faults.eintr = Some((1 + rng.below(40) as u32, 1 + rng.below(3) as u32, mask));
+    }
     plan.body = Body::Comm(c);
 }
 
@@ -759,7 +764,13 @@ fn drive_reads<C: CommLike>(m: &mut Model, mut comm: C, reads: &[ReadStep], faul
             Ok(res) => {
                 let nviol = sim().violations.len();
                 let fin = judge_read(m, cur, b, &res, idx);
-                let mut fatal = !res.ok && res.kind != Some(std::io::ErrorKind::TimedOut);
+                // an interrupted call (injected EINTR) may fail, but then it is resumable like a
+                // timeout: nothing may be lost or duplicated across the retry
+                let resumable_eintr = res.kind == Some(std::io::ErrorKind::Interrupted) && eintr_fired();
+                if resumable_eintr {
+                    sim().k.probe("read_failed_with_eintr_resumed");
+                }
+                let mut fatal = !res.ok && res.kind != Some(std::io::ErrorKind::TimedOut) && !resumable_eintr;
                 if fatal && !faulty {
                     // an error without any injected fault: legitimate only for a broken pipe on stdin
                     if res.kind != Some(std::io::ErrorKind::BrokenPipe) && sim().poisoned.is_none() {
